@@ -284,7 +284,8 @@ Proof. intros Hs (c0 & u0 & H1 & H2 & H3). exists c0, u0. repeat split; auto. Qe
 
 Lemma Inv_weaken m L T T' : (forall r, In r T -> In r T') -> Inv m L T -> Inv m L T'.
 Proof.
-  intros Hs (I0 & I1 & I2 & I3 & I4). repeat split; auto; intros f x Hf Hx; eapply row_ok_weaken; eauto.
+  intros Hs (I0 & I1 & I2 & I3 & I4). split; [exact I0|]. split; [exact I1|].
+  split; [intros f x Hf Hx; eapply row_ok_weaken; eauto|]. split; [intros f x Hf Hx; eapply row_ok_weaken; eauto | exact I4].
 Qed.
 
 (* building the invariant of the new manifest fragment by fragment *)
@@ -312,4 +313,162 @@ Lemma same_rows_vrows f f' x :
   same_rows f f' -> (forall o, In o (f_del f) -> In o (f_del f')) -> In x (vrows f') -> In x (vrows f).
 Proof.
   intros S Hd H. unfold vrows, live in *. rewrite (same_rows_prows _ _ S) in H. eapply live_from_mono; eauto.
+Qed.
+
+(* ================================================================ shape of one step *)
+Lemma step_shape st cur tl o m' :
+  m_stable cur = true -> step st (cur :: tl) o = Ok m' -> is_restore o = false ->
+  exists t final nr',
+    lower cur o = Ok t /\
+    build_arm (m_frags cur) (start_fid (Some cur) t) (Some (m_next cur)) (m_version cur + 1) t = Ok (final, Some nr') /\
+    (forall f, In f (m_frags m') <-> In f final) /\ m_next m' = nr' /\ m_version m' = m_version cur + 1 /\
+    m_stable m' = true.
+Proof.
+  intros Hst Hs Hr.
+  assert (Hs' : bind (lower cur o) (fun t => build_manifest (Some cur) (m_stable cur) t) = Ok m')
+    by (destruct o; try discriminate; exact Hs).
+  apply bind_ok in Hs' as (t & Hl & Hb). unfold build_manifest in Hb. rewrite Hst in Hb. cbn [negb andb] in Hb.
+  apply bind_ok in Hb as ([final onr'] & Harm & Hb). cbn [fst snd] in Hb.
+  destruct ((existsb has_ids (sort_frags final) || true) && negb (forallb has_ids (sort_frags final))); [discriminate|].
+  apply bind_ok in Hb as (mf & _ & Hb).
+  unfold start_nr in Harm. rewrite Hst in Harm. cbn [existing_of new_version_of] in Harm.
+  pose proof (build_arm_ids _ _ _ _ _ _ _ Harm) as Hi. destruct onr' as [nr'|]; [|contradiction].
+  exists t, final, nr'. split; [exact Hl|]. split; [exact Harm|].
+  inversion Hb; subst; clear Hb. cbn [m_frags m_next m_version m_stable new_version_of].
+  repeat split; try reflexivity.
+  - apply (proj1 (in_sort_frags _ _)).
+  - apply (proj2 (in_sort_frags _ _)).
+  - apply orb_true_r.
+Qed.
+
+(* ================================================================ new fragments of Append / Overwrite *)
+Definition blank (f : frag) : Prop := f_ids f = None /\ f_created f = None /\ f_updated f = None /\ f_del f = [].
+
+Lemma fragments_with_ids_in : forall fs fid f',
+  In f' (fst (fragments_with_ids fs fid)) -> exists f i, In f fs /\ f' = set_id f i.
+Proof.
+  induction fs as [|f tl IH]; intros fid f' H; cbn [fragments_with_ids] in H; [contradiction|].
+  destruct (f_id f =? 0); cbn [fst] in H; destruct H as [H|H].
+  - subst. exists f, fid. split; [left; reflexivity | reflexivity].
+  - destruct (IH _ _ H) as (g & i & Hg & E). exists g, i. split; [right; exact Hg | exact E].
+  - subst. exists f', (f_id f'). split; [left; reflexivity | destruct f'; reflexivity].
+  - destruct (IH _ _ H) as (g & i & Hg & E). exists g, i. split; [right; exact Hg | exact E].
+Qed.
+
+(* what assign_row_ids does to a fragment that brings no version metadata: the ids it carries, then fresh ones *)
+Lemma assign_row_ids_in : forall fs nr nr1 fs1,
+  assign_row_ids nr fs = Ok (nr1, fs1) ->
+  forall f1, In f1 fs1 -> exists f a,
+    In f fs /\ nr <= a /\ a + (f_phys f - nlen (frag_ids f)) <= nr1 /\
+    f_ids f1 = Some (frag_ids f ++ nseq a (f_phys f - nlen (frag_ids f))) /\
+    nlen (frag_ids f) <= f_phys f /\
+    f_id f1 = f_id f /\ f_phys f1 = f_phys f /\ f_created f1 = f_created f /\ f_updated f1 = f_updated f /\ f_del f1 = f_del f.
+Proof.
+  induction fs as [|f tl IH]; intros nr nr1 fs1 H f1 Hf1; cbn [assign_row_ids] in H.
+  - inversion H; subst. contradiction.
+  - destruct (f_ids f) as [ids|] eqn:Ef.
+    + destruct (nlen ids ?= f_phys f) eqn:Ec.
+      * apply N.compare_eq in Ec. apply bind_ok in H as ([a b] & H1 & H2). cbn [fst snd] in H2. inversion H2; subst.
+        pose proof (assign_row_ids_spec _ _ _ _ H1) as (Hle & _).
+        destruct Hf1 as [Hf1|Hf1].
+        -- subst f1. exists f, nr. unfold frag_ids. rewrite Ef, Ec, N.sub_diag. cbn [nseq]. rewrite app_nil_r.
+           repeat split; auto; try lia. left; reflexivity.
+        -- destruct (IH _ _ _ H1 _ Hf1) as (g & a0 & Hg & A1 & A2 & A3). exists g, a0. repeat split; try apply A3; auto; try lia. right; exact Hg.
+      * apply N.compare_lt_iff in Ec. destruct (two64 <=? _); [discriminate|].
+        apply bind_ok in H as ([a b] & H1 & H2). cbn [fst snd] in H2. inversion H2; subst.
+        pose proof (assign_row_ids_spec _ _ _ _ H1) as (Hle & _).
+        destruct Hf1 as [Hf1|Hf1].
+        -- subst f1. exists f, nr. unfold frag_ids. rewrite Ef. cbn [set_ids f_ids f_id f_phys f_created f_updated f_del].
+           repeat split; auto; try lia; [left; reflexivity | apply N.lt_le_incl; exact Ec].
+        -- destruct (IH _ _ _ H1 _ Hf1) as (g & a0 & Hg & A1 & A2 & A3). exists g, a0. repeat split; try apply A3; auto; try lia. right; exact Hg.
+      * discriminate.
+    + destruct (two64 <=? _); [discriminate|].
+      apply bind_ok in H as ([a b] & H1 & H2). cbn [fst snd] in H2. inversion H2; subst.
+      pose proof (assign_row_ids_spec _ _ _ _ H1) as (Hle & _).
+      destruct Hf1 as [Hf1|Hf1].
+      * subst f1. exists f, nr. unfold frag_ids. rewrite Ef. cbn [nlen length app N.of_nat]. rewrite N.sub_0_r.
+        cbn [set_ids f_ids f_id f_phys f_created f_updated f_del]. repeat split; auto; try lia.
+        all: idtac "GOAL3". all: match goal with |- ?g => idtac g end.
+      * destruct (IH _ _ _ H1 _ Hf1) as (g & a0 & Hg & A1 & A2 & A3). exists g, a0. repeat split; try apply A3; auto; try lia. right; exact Hg.
+Qed.
+
+Lemma stamp_new_in : forall fs v fs2, stamp_new fs v = Ok fs2 ->
+  forall f2, In f2 fs2 -> exists f1 vm, In f1 fs /\ build_version_meta f1 v = Ok vm /\ f2 = set_created (set_updated f1 vm) vm.
+Proof.
+  induction fs as [|f tl IH]; intros v fs2 H f2 Hf2; cbn [stamp_new] in H.
+  - inversion H; subst. contradiction.
+  - apply bind_ok in H as (vm & Hv & H). apply bind_ok in H as (tl' & Ht & H). inversion H; subst.
+    destruct Hf2 as [Hf2|Hf2].
+    + subst. exists f, vm. split; [left; reflexivity | split; [exact Hv | reflexivity]].
+    + destruct (IH _ _ Ht _ Hf2) as (f1 & vm1 & A & B & C). exists f1, vm1. split; [right; exact A | split; assumption].
+Qed.
+
+Lemma stamp_updated_in : forall ex fs v fs2, stamp_updated ex fs v = Ok fs2 ->
+  forall f2, In f2 fs2 -> exists f1 vm, In f1 fs /\ build_version_meta f1 v = Ok vm /\
+    match f_ids f1 with
+    | Some ids => f2 = set_updated (set_created f1 (Some (map (created_lookup ex) ids))) vm
+    | None => f2 = set_created (set_updated f1 vm) vm
+    end.
+Proof.
+  induction fs as [|f tl IH]; intros v fs2 H f2 Hf2; cbn [stamp_updated] in H.
+  - inversion H; subst. contradiction.
+  - apply bind_ok in H as (vm & Hv & H). apply bind_ok in H as (tl' & Ht & H).
+    destruct (f_ids f) eqn:Ef; inversion H; subst; destruct Hf2 as [Hf2|Hf2].
+    + subst. exists f, vm. split; [left; reflexivity | split; [exact Hv | rewrite Ef; reflexivity]].
+    + destruct (IH _ _ Ht _ Hf2) as (f1 & vm1 & A & B & C). exists f1, vm1. split; [right; exact A | split; assumption].
+    + subst. exists f, vm. split; [left; reflexivity | split; [exact Hv | rewrite Ef; reflexivity]].
+    + destruct (IH _ _ Ht _ Hf2) as (f1 & vm1 & A & B & C). exists f1, vm1. split; [right; exact A | split; assumption].
+Qed.
+
+Lemma build_version_meta_ok f v vm : build_version_meta f v = Ok vm ->
+  vm = if 0 <? f_phys f then Some (uniform (f_phys f) v) else None.
+Proof.
+  unfold build_version_meta. destruct (0 <? f_phys f); [destruct (f_ids f); [|discriminate]|]; intro H; inversion H; reflexivity.
+Qed.
+
+(* a version column that is uniformly v (empty when the fragment is empty) *)
+Lemma uniform_col p v (o : option (list N)) :
+  o = (if 0 <? p then Some (uniform p v) else None) ->
+  (match o with Some l => l | None => uniform p 1 end) = uniform p v /\ (o = None -> p = 0).
+Proof.
+  intro E. destruct (0 <? p) eqn:Ep; subst o.
+  - split; [reflexivity | discriminate].
+  - apply N.ltb_ge in Ep. assert (p = 0) by lia. subst p. split; [reflexivity | reflexivity].
+Qed.
+
+Lemma in_combine_map {A B C} (g : A -> B) : forall (l : list A) (us : list C) r c u,
+  In (r, (c, u)) (combine l (combine (map g l) us)) -> In r l /\ c = g r /\ In u us.
+Proof.
+  induction l as [|x l IH]; intros us r c u H; [contradiction|].
+  destruct us as [|u0 us]; [contradiction|]. cbn [map combine In] in H. destruct H as [H|H].
+  - inversion H; subst. repeat split; left; reflexivity.
+  - destruct (IH _ _ _ _ H) as (A1 & A2 & A3). repeat split; [right; exact A1 | exact A2 | right; exact A3].
+Qed.
+
+(* new fragments of Append / Overwrite *)
+Lemma appended_frags sizes fid0 nr V nr1 nf1 nf2 :
+  assign_row_ids nr (fst (fragments_with_ids (map (fun s => fresh_frag s None) sizes) fid0)) = Ok (nr1, nf1) ->
+  stamp_new nf1 V = Ok nf2 ->
+  forall f, In f nf2 -> wf_frag f /\ f_del f = [] /\ (forall x, In x (prows f) -> nr <= fst x < nr1 /\ snd x = (V, V)).
+Proof.
+  intros Ha Hs f Hf. destruct (stamp_new_in _ _ _ Hs _ Hf) as (f1 & vm & Hf1 & Hv & Ef).
+  destruct (assign_row_ids_in _ _ _ _ Ha _ Hf1) as (f0 & a & Hf0 & A1 & A2 & A3 & A4 & A5 & A6 & A7 & A8 & A9).
+  destruct (fragments_with_ids_in _ _ _ Hf0) as (g & i & Hg & Eg). apply in_map_iff in Hg as (s & Es & _). subst g f0.
+  cbn [frag_ids set_id fresh_frag f_ids f_phys f_created f_updated f_del nlen length N.of_nat app] in *.
+  rewrite N.sub_0_r in *.
+  apply build_version_meta_ok in Hv. rewrite A6 in Hv.
+  destruct (uniform_col s V vm Hv) as [U1 U2].
+  assert (Eids : frag_ids f = nseq a s) by (subst f; unfold frag_ids; cbn [set_created set_updated f_ids]; rewrite A3; reflexivity).
+  assert (Ecs : cs_of f = uniform s V) by (subst f; unfold cs_of; cbn [set_created set_updated f_created f_phys]; rewrite A6; exact U1).
+  assert (Eus : us_of f = uniform s V) by (subst f; unfold us_of; cbn [set_created set_updated f_updated f_phys]; rewrite A6; exact U1).
+  assert (Eph : f_phys f = s) by (subst f; cbn; exact A6).
+  split; [|split].
+  - unfold wf_frag. rewrite Eids, Ecs, Eus, Eph, nlen_nseq, nlen_uniform. repeat split; auto.
+    + subst f. cbn [set_created set_updated f_ids]. eexists; exact A3.
+    + subst f. cbn [set_created set_updated f_created]. exact U2.
+    + subst f. cbn [set_created set_updated f_updated]. exact U2.
+  - subst f. cbn. exact A9.
+  - intros [r [c u]] Hx. unfold prows in Hx. rewrite Eids, Ecs, Eus in Hx.
+    apply in_combine_both in Hx as [H1 H2]. apply in_combine_both in H2 as [H2 H3].
+    apply in_uniform in H2. apply in_uniform in H3. apply in_nseq in H1. subst. cbn [fst snd]. split; [lia | reflexivity].
 Qed.
